@@ -93,6 +93,9 @@ func pbUsers(us []User) map[string]*appctlpb.User {
 	return m
 }
 
+// PBUsers converts users to the map Mux.SetServerUsers takes.
+func PBUsers(us []User) map[string]*appctlpb.User { return pbUsers(us) }
+
 func (w *World) serverAddr() net.Addr {
 	if w.Cfg.UDP {
 		return &net.UDPAddr{IP: net.IPv4(10, 8, 0, 1), Port: w.Cfg.Port}
